@@ -87,7 +87,7 @@ def run(ctx):
         tasks.append(dict(simname=sim, aw=1, dw=2, pre=(), seed=ctx.seed + 1, init={0: 3, 1: 1}))
         for (aw, dw) in [(1, 1), (2, 3), (3, 63), (3, 64), (3, 65), (4, 70), (2, 130)]:
             tasks.append(dict(simname=sim, aw=aw, dw=dw, pre=(), seed=ctx.seed,
-                              max_steps=300 if ctx.tier == 'quick' else 2000,
+                              max_steps=300 if ctx.tier == 'quick' else 6000,
                               init={0: (1 << dw) - 1}))
         # write ports fed by registers directly; one port folded from two conditional branches
         # address spaces wider than 32 bits (aliases modulo 2**32 and 2**8)
